@@ -23,7 +23,7 @@ replayable and matchable.  Per block at most one failure per (function, situatio
 is reported (the sweep itself is never cut short), and blocks are dealt over many work items."""
 import itertools
 
-from ..core import Siblings, WholeFloats, Sub, fail, lit
+from ..core import Siblings, WholeFloats, Sub, fail, lit, scale
 
 # --------------------------------------------------------------------------
 # the string spaces
@@ -938,4 +938,51 @@ class TextSiblings(Siblings):
     ]
 
 
-SUBS = [Slices(), SliceLaws(), LenConcat(), CaseTrimClean(), CodeChar(), Join(), Substitute(), TextWholeFloats(), TextSiblings()]
+
+class TextScale(Sub):
+    name = 'c15.scale'
+    rule = ('size ladder (1..13, then around 16, 32, 64, 100, 128, 256, 512, 1000, 1024 [2048, 4096]) of the text length / '
+            'item count n: LEN, LEFT/RIGHT/MID at the far end, LEFT&RIGHT = s, UPPER(LOWER), TRIM of a run of n spaces, '
+            'SUBSTITUTE of every / the last / the k-th occurrence, CONCATENATE and TEXTJOIN of n items (host list, and n <= 257 '
+            'literal arguments), LEN(a&b); against Python string operations; non-trivial = all')
+    min_cases = 40
+    min_nontrivial = 40
+
+    def cases(self, tier, unit):
+        for n in scale(tier):
+            yield [n]
+
+    def check(self, env, case):
+        n = case[0]
+        s = ''.join('abcdefghij'[i % 10] for i in range(n))
+        env.nt()
+        items = ['i%d' % i for i in range(n)]
+        na = s.count('a')
+        probes = [('LEN(xs)', n), ('LEFT(xs,%d)' % n, s), ('LEFT(xs,%d)' % (n - 1), s[:n - 1]), ('RIGHT(xs,%d)' % n, s),
+                  ('RIGHT(xs,1)', s[-1:]), ('MID(xs,%d,1)' % n, s[-1:]), ('MID(xs,1,%d)' % n, s), ('MID(xs,%d,5)' % (n + 1), ''),
+                  ('LEFT(xs,%d)&RIGHT(xs,1)' % (n - 1), s), ('UPPER(xs)', s.upper()), ('LOWER(UPPER(xs))', s),
+                  ('PROPER(xs)', s[:1].upper() + s[1:]), ('TRIM(xs&xsp&xs)', s + ' ' + s), ('LEN(TRIM(xsp))', 0),
+                  ('LEN(CLEAN(xs))', n), ('SUBSTITUTE(xs,"a","")', s.replace('a', '')), ('LEN(SUBSTITUTE(xs,"a","xyz"))', n + 2 * na),
+                  ('LEN(xs&xs)', 2 * n), ('LEN(CONCATENATE(xs,xs,"q"))', 2 * n + 1), ('CONCATENATE(xl)', ''.join(items)),
+                  ('TEXTJOIN(",",TRUE,xl)', ','.join(items)), ('LEN(TEXTJOIN("",FALSE,xl,xs))', len(''.join(items)) + n),
+                  ('CODE(RIGHT(xs,1))', ord(s[-1])), ('xs=xs&""', True)]
+        if na:
+            last = s.rfind('a')
+            probes += [('SUBSTITUTE(xs,"a","Z",%d)' % na, s[:last] + 'Z' + s[last + 1:]), ('SUBSTITUTE(xs,"a","Z",%d)' % (na + 1), s)]
+        if n <= 257:
+            probes += [('CONCATENATE(%s)' % ','.join('"%s"' % x for x in items), ''.join(items)),
+                       ('TEXTJOIN("-",TRUE,%s)' % ','.join('"%s"' % x for x in items), '-'.join(items))]
+        out = []
+        vars_ = {'xs': s, 'xsp': ' ' * n, 'xl': items}
+        for f, want in probes:
+            o = env.evo(f, vars_)
+            if o != ['v', want]:
+                out.append(fail('%s with xs = a text of %d characters (abcdefghij repeated), xsp = %d spaces, xl = %d items gives %s, '
+                                'expected %s' % (f if len(f) < 120 else f[:117] + '...', n, n, n, repr(o)[:100], repr(want)[:100]),
+                                repr(want)[:300], repr(o)[:300]))
+                if len(out) >= 3:
+                    break
+        return out
+
+
+SUBS = [Slices(), SliceLaws(), LenConcat(), CaseTrimClean(), CodeChar(), Join(), Substitute(), TextWholeFloats(), TextSiblings(), TextScale()]
